@@ -333,7 +333,53 @@ def lean_arm(rows):
     return "[" + ", ".join('("' + g + '", [' + ", ".join(f'"{a}"' for a in acts) + "])" for g, acts in rows) + "]"
 
 
-GROUPS = ["cancel", "mismatch", "exit", "setdef", "escape", "signals", "sighandler", "termchild", "termexit", "delayloop", "drainloop", "drainexit", "mainloop", "placeholders", "xml"]
+def interval_branch(fn_name):
+    """executor.rs: the `interval_sleep` branch of the main `select!` of `fn_name` (what happens when a slow-timeout period
+    runs out), as (guard, actions) rows over the locals `will_terminate` and the grace period."""
+    src = strip_comments(read("nextest-runner/src/runner/executor.rs"))
+    m = re.search(r"async fn " + fn_name + r"\b", src)
+    if not m: raise RuntimeError(f"{fn_name} not found")
+    body = src[m.end():]
+    nxt = re.search(r"\n    (?:pub(?:\(\w+\))? )?(?:async )?fn \w+", body)
+    if nxt: body = body[:nxt.start()]
+    mm = re.search(r"_ = &mut interval_sleep, if status\.is_none\(\) => \{", body)
+    if not mm: raise RuntimeError(f"{fn_name}: interval_sleep branch not found")
+    i = mm.end(); depth = 1; j = i
+    while depth and j < len(body):
+        depth += {"{": 1, "}": -1}.get(body[j], 0); j += 1
+    t = re.sub(r"\s+", " ", body[i:j - 1]).strip()
+    rows = []
+    def eat(pat, what):
+        nonlocal t
+        r = re.match(pat, t)
+        if not r: raise RuntimeError(f"{fn_name}: interval branch: expected {what} at `{t[:90]}`")
+        t = t[r.end():].strip()
+        return r
+    eat(r"cx\.slow_after = Some\(slow_timeout\.period\);", "the slow mark"); rows.append(("", ["mark_slow"]))
+    eat(r"timeout_hit \+= 1;", "the hit counter"); rows.append(("", ["hit"]))
+    eat(r"let will_terminate = if let Some\(terminate_after\) = slow_timeout\.terminate_after \{ NonZeroUsize::new\(timeout_hit as usize\) \.expect\(\"[^\"]*\"\) >= terminate_after \} else \{ false \};", "will_terminate = (hits >= terminate-after)")
+    eat(r"if !slow_timeout\.grace_period\.is_zero\(\) \{ let _ = resp_tx\.send\(\w+\.slow_event\( timeout_hit \* slow_timeout\.period, will_terminate\.then_some\(slow_timeout\.grace_period\), \)\); \}", "the slow event (hits x period, will_terminate), sent unless the grace period is zero")
+    rows.append(("grace_nonzero", ["emit_slow"]))
+    eat(r"if will_terminate \{", "`if will_terminate {`")
+    acts = []
+    while not t.startswith("} else {"):
+        if re.match(r"_ = super::os::terminate_child\( &cx, &mut child, &mut child_acc, InternalTerminateReason::Timeout, stopwatch, req_rx, job\.as_ref\(\), slow_timeout\.grace_period, \) ?\.await;", t):
+            eat(r"_ = super::os::terminate_child\(.*?\) ?\.await;", "terminate_child"); acts.append("terminate:Timeout"); continue
+        if re.match(r"status = Some\(ExecutionResult::Timeout\);", t):
+            eat(r"status = Some\(ExecutionResult::Timeout\);", "status"); acts.append("status:Timeout"); continue
+        if re.match(r"if slow_timeout\.grace_period\.is_zero\(\) \{ break child\.wait\(\)\.await; \}", t):
+            eat(r"if slow_timeout\.grace_period\.is_zero\(\) \{ break child\.wait\(\)\.await; \}", "zero-grace break")
+            if acts: rows.append(("will_terminate", acts)); acts = []
+            rows.append(("will_terminate&grace_zero", ["break_wait"])); continue
+        raise RuntimeError(f"{fn_name}: interval branch: unrecognised statement at `{t[:90]}`")
+    if acts: rows.append(("will_terminate", acts))
+    eat(r"\} else \{ interval_sleep\.reset_last_duration\(\); \}".replace("interval_sleep\\.", "interval_sleep(?:\\.as_mut\\(\\))?\\."), "the else branch re-arming the interval")
+    rows.append(("not_will_terminate", ["rearm"]))
+    if t: raise RuntimeError(f"{fn_name}: interval branch: trailing statements `{t[:90]}`")
+    return rows
+
+
+GROUPS = ["cancel", "mismatch", "exit", "setdef", "escape", "signals", "sighandler", "termchild", "termexit", "delayloop", "drainloop", "drainexit", "mainloop", "interval", "placeholders", "xml"]
 
 
 def group_lines(g):
@@ -397,6 +443,10 @@ def group_lines(g):
         arms = request_arms(strip_comments(read("nextest-runner/src/runner/executor.rs")), "detect_fd_leaks", keys)
         return ["/-- executor.rs `detect_fd_leaks`: how its loop ends — the leak timer fires, or both pipes are done; the value is `leaked` -/"] + [
                 f"def drain{k}Arm : List (String × List String) := {lean_arm(arms[k])}" for k in ("LeakTimerFired", "FdsDone")]
+    if g == "interval":
+        return ["/-- executor.rs: the branch taken when a slow-timeout period runs out, in the test loop and in the setup-script loop -/",
+                f"def testIntervalBranch : List (String × List String) := {lean_arm(interval_branch('run_test_inner'))}",
+                f"def scriptIntervalBranch : List (String × List String) := {lean_arm(interval_branch('run_setup_script_inner'))}"]
     if g == "mainloop":
         keys = {"Stop": r"SignalRequest::Stop\(\w+\)", "Continue": r"SignalRequest::Continue"}
         arms = request_arms(strip_comments(read("nextest-runner/src/runner/executor.rs")), "handle_signal_request", keys)
